@@ -54,6 +54,98 @@ func c01Rig() *redis.VerifRig {
 
 func c01Key(conn int, k string) []byte { return []byte(fmt.Sprintf("c%d-k%s", conn, k)) }
 
+// c01.held <n>   one connection pipelines n+1 GETs in one write: the first n for keys of one node, which answers at once, the last for a key of
+// another node, which stays silent for 700 ms.  -> early=<replies read while the last node was still silent> all=<replies read in the end>
+func (c01) held(n int) string {
+	rig := c01Rig()
+	defer hx.DropScopes(rig.ScopeName())
+	ln, err := net.Listen("tcp", "127.0.0.1:0")
+	if err != nil {
+		return "sockerr"
+	}
+	defer ln.Close()
+	go func() {
+		for {
+			c, err := ln.Accept()
+			if err != nil {
+				return
+			}
+			go rig.ServeConn(c)
+		}
+	}()
+	// keys by node
+	var fast [][]byte
+	var slow []byte
+	nodeOf := func(k []byte) int {
+		return (int(redis.VerifCrc16(redis.VerifHashtag(k))) & (redis.VerifSlotNum - 1)) / (16384 / c01Nodes)
+	}
+	for i := 0; len(fast) < n || slow == nil; i++ {
+		k := []byte(fmt.Sprintf("held-%d", i))
+		switch {
+		case nodeOf(k) == 0 && len(fast) < n:
+			fast = append(fast, k)
+		case nodeOf(k) == 1 && slow == nil:
+			slow = k
+		}
+	}
+	var b bytes.Buffer
+	for _, k := range fast {
+		b.Write(hx.Wire(hx.Bulks([]byte("get"), k)))
+	}
+	b.Write(hx.Wire(hx.Bulks([]byte("get"), slow)))
+	c, err := net.DialTimeout("tcp", ln.Addr().String(), time.Second)
+	if err != nil {
+		return "sockerr"
+	}
+	defer c.Close()
+	c.Write(b.Bytes())
+	// the backends: wait until everything has arrived, answer node 0 at once
+	var held []*redis.VerifSent
+	got := 0
+	deadline := time.Now().Add(3 * time.Second)
+	for got < n+1 && time.Now().Before(deadline) {
+		for _, s := range rig.Drain() {
+			got++
+			held = append(held, s)
+		}
+		time.Sleep(200 * time.Microsecond)
+	}
+	if got < n+1 {
+		return "setup-failed"
+	}
+	var slowSent *redis.VerifSent
+	for _, s := range held {
+		if s.Addr == hx.NodeAddr(0) {
+			s.Reply(&redis.RespValue{Type: redis.BulkString, Text: append([]byte("v:"), s.Body().Array[1].Text...)})
+		} else {
+			slowSent = s
+		}
+	}
+	dec := redis.VerifNewDecoder(c, 4096)
+	read := func(d time.Duration) int {
+		k := 0
+		for {
+			c.SetReadDeadline(time.Now().Add(d))
+			if _, err := dec.Decode(); err != nil {
+				return k
+			}
+			k++
+		}
+	}
+	early := read(700 * time.Millisecond)
+	if slowSent != nil {
+		slowSent.Reply(&redis.RespValue{Type: redis.BulkString, Text: []byte("v:slow")})
+	}
+	all := early
+	if early < n+1 {
+		// a fresh decoder state is not needed: a timed-out read leaves the decoder's buffer intact only if nothing was read;
+		// count what arrives now on a new decoder over the same connection
+		dec = redis.VerifNewDecoder(c, 4096)
+		all += read(700 * time.Millisecond)
+	}
+	return fmt.Sprintf("early=%d all=%d", early, all)
+}
+
 func (c01) pipe(f []string) string {
 	if len(f) < 4 {
 		return "bad-op"
@@ -383,6 +475,13 @@ func (c01) client(n, chunk int, seed int64, kind string) string {
 }
 
 func (c c01) Exec(op string) string {
+	if f := hx.Fields(op); len(f) == 2 && f[0] == "c01.held" {
+		n, err := strconv.Atoi(f[1])
+		if err != nil || n < 1 || n > 200 {
+			return "bad-op"
+		}
+		return recoverStr(func() string { return c.held(n) })
+	}
 	f := hx.Fields(op)
 	if len(f) < 2 {
 		return "bad-op"
@@ -416,6 +515,10 @@ func (c c01) Gen(r *hx.Run) {
 	}
 	for _, b := range basic {
 		r.Do("c01.pipe "+b, true, "basic")
+	}
+	// finished replies do not wait for a later request's silent node
+	for _, n := range []int{1, 3, 1 + rng.Intn(40)} {
+		r.Do(fmt.Sprintf("c01.held %d", n), true, "held-behind-silent-node")
 	}
 	gen := func(n, keys int) []string {
 		var toks []string
